@@ -167,7 +167,7 @@ Proof.
   assert (HU1 : unvisited D st1 <= n) by (pose proof (unvisited_ext D _ _ Hreg); lia).
   pose proof (fields_loop_w m (m_fields m) st1 exs HU1) as Hf.
   destruct (fields_loop D rec m st1 exs (m_fields m)) as [[[st2 exs2] ps]| | |]; cbn [obind Pw pr3 fst snd] in *; try exact I; try contradiction; try assumption.
-  destruct (existsb ex_pending exs2); cbn [obind]; [exact I|].
+  destruct (existsb ex_pending exs2); cbn [obind]; [exact I|]. destruct (negb (exs_names_ok exs2)); cbn [obind]; [exact I|].
   assert (He : ext st (finish_oneofs st2 exs2))
     by (eapply ext_trans; [exact Hreg|]; eapply ext_trans; [exact Hf|apply finish_oneofs_w]).
   destruct (negb (props_valid ps)); [exact I|].
